@@ -74,6 +74,7 @@ type c17Seg struct {
 	Kill          c17Kill   `json:"kill"`
 	Reject        []int     `json:"reject,omitempty"`      // the k-th Append/AppendASAP calls of this process return an error without appending
 	CloseAfter    int       `json:"close_after,omitempty"` // >0: Close() is called after that many acknowledgements while the writers go on
+	IOFail        int       `json:"io_fail,omitempty"`     // >0: from the k-th Append/AppendASAP on the binlog chunk's writes and fsyncs fail (its descriptor is closed under the writer, as a dying disk would); the segment ends shortly after
 	Tear          int       `json:"tear,omitempty"`        // >0: once the process is gone the parent leaves the first 1+(Tear-1)%119 bytes of one more (120-byte) event at the end of the newest binlog file: a write torn by the kill
 }
 
@@ -187,11 +188,19 @@ type c17Binlog struct {
 	committed *atomic.Int64
 	reject    map[int64]bool
 	appends   atomic.Int64
+	ioFailAt  int64
+	fs        *c17FS
 }
 
 var errC17Reject = errors.New("c17: binlog refused the event on purpose")
 
-func (b *c17Binlog) rejected() bool { return b.reject[b.appends.Add(1)] }
+func (b *c17Binlog) rejected() bool {
+	n := b.appends.Add(1)
+	if b.ioFailAt > 0 && n == b.ioFailAt {
+		b.fs.failIO()
+	}
+	return b.reject[n]
+}
 
 func (b *c17Binlog) Run(offset int64, sm []byte, cm []byte, eng binlog.Engine) error {
 	return b.Binlog.Run(offset, sm, cm, &c17Engine{Engine: eng, k: b.k, committed: b.committed})
@@ -246,7 +255,26 @@ func (e *c17Engine) Commit(off int64, meta []byte, safe int64) error {
 // c17FS lets the child die right before / after the writer creates a new chunk file.
 type c17FS struct {
 	gofs.FS
-	k *c17Killer
+	k       *c17Killer
+	mu      sync.Mutex
+	writers []*gofs.File // chunk files opened for writing
+	faulted atomic.Bool
+	faultCh chan struct{}
+}
+
+// failIO makes every write and fsync of the binlog fail from now on: gofs.File is a concrete type, so the
+// fault is injected by closing the chunk's descriptor behind the writer's back (os.File then answers
+// "file already closed" without touching the descriptor number again).
+func (f *c17FS) failIO() {
+	if f.faulted.Swap(true) {
+		return
+	}
+	f.mu.Lock()
+	for _, h := range f.writers {
+		_ = h.Close()
+	}
+	f.mu.Unlock()
+	close(f.faultCh)
 }
 
 func (f *c17FS) OpenFile(name string, flag int, perm os.FileMode) (*gofs.File, error) {
@@ -257,6 +285,14 @@ func (f *c17FS) OpenFile(name string, flag int, perm os.FileMode) (*gofs.File, e
 	h, err := f.FS.OpenFile(name, flag, perm)
 	if create {
 		f.k.hit("create", "after")
+	}
+	if err == nil && flag&(os.O_WRONLY|os.O_RDWR) != 0 && strings.HasSuffix(name, ".bin") {
+		f.mu.Lock()
+		f.writers = append(f.writers, h)
+		f.mu.Unlock()
+		if f.faulted.Load() {
+			_ = h.Close()
+		}
 	}
 	return h, err
 }
@@ -335,7 +371,8 @@ func TestVerifC17Child(t *testing.T) {
 	if killer.at == "none" || killer.at == "timer" {
 		killer.at = ""
 	}
-	opts := fsbinlog.Options{PrefixPath: filepath.Join(plan.Dir, "bl"), Magic: c17SchemaID, MaxChunkSize: plan.Chunk, Fs: &c17FS{FS: gofs.OsFs(), k: killer}}
+	cfs := &c17FS{FS: gofs.OsFs(), k: killer, faultCh: make(chan struct{})}
+	opts := fsbinlog.Options{PrefixPath: filepath.Join(plan.Dir, "bl"), Magic: c17SchemaID, MaxChunkSize: plan.Chunk, Fs: cfs}
 	if _, err := os.Stat(opts.PrefixPath + ".000000.bin"); os.IsNotExist(err) {
 		if _, err := fsbinlog.CreateEmptyFsBinlog(opts); err != nil {
 			c17Emit(c17Line{T: "harness", Msg: "create binlog: " + err.Error()})
@@ -344,7 +381,7 @@ func TestVerifC17Child(t *testing.T) {
 	}
 	inner, _ := fsbinlog.NewFsBinlog(nil, opts)
 	committed := &atomic.Int64{}
-	bl := &c17Binlog{Binlog: inner, k: killer, committed: committed, reject: map[int64]bool{}}
+	bl := &c17Binlog{Binlog: inner, k: killer, committed: committed, reject: map[int64]bool{}, ioFailAt: int64(plan.Seg.IOFail), fs: cfs}
 	for _, k := range plan.Seg.Reject {
 		bl.reject[int64(k)] = true
 	}
@@ -448,6 +485,8 @@ func TestVerifC17Child(t *testing.T) {
 					}
 				case errors.Is(err, errC17Reject):
 					c17Emit(c17Line{T: "rejected", Seq: op.Seq})
+				case cfs.faulted.Load():
+					c17Emit(c17Line{T: "ioerr", Seq: op.Seq, Msg: err.Error()}) // the binlog's disk is gone: Do may fail (or never return)
 				case closing.Load():
 					c17Emit(c17Line{T: "raceerr", Seq: op.Seq, Msg: err.Error()}) // Do racing Close may fail
 				case op.Fail != 0 && errors.Is(err, errC17Fail):
@@ -465,6 +504,15 @@ func TestVerifC17Child(t *testing.T) {
 	select {
 	case <-writersDone:
 	case <-closeNow: // Close while the writers are still at work
+	case <-cfs.faultCh:
+		// binlog I/O is failing. Writers whose Do neither fails nor returns are given a bounded wait and count as
+		// unacknowledged; then the process ends without Close (the next segment restarts on the same files).
+		select {
+		case <-writersDone:
+		case <-time.After(400 * time.Millisecond):
+		}
+		c17Emit(c17Line{T: "ioend"})
+		os.Exit(0)
 	}
 	closing.Store(true)
 	close(stopReaders)
@@ -836,6 +884,7 @@ type c17Stats struct {
 	tornTail, rotations, crcRecs   int
 	snapshotsBehind, snapshotsEven int
 	rejected, cancelled            int
+	ioFaults, ioFaultsInFlight     int
 	knownTornTail, tornByParent    int
 }
 
@@ -879,6 +928,7 @@ func c17Prop(t vpT, c c17Case, dir string, st *c17Stats) (nontrivial bool, class
 		finished := map[uint32]bool{}
 		done := false
 		rejected, raceErrs, cancelled := 0, 0, 0
+		ioEnd := false
 		var views []c17Line
 		for k := range run.lines {
 			l := run.lines[k]
@@ -906,6 +956,10 @@ func c17Prop(t vpT, c c17Case, dir string, st *c17Stats) (nontrivial bool, class
 			case "raceerr":
 				finished[l.Seq] = true
 				raceErrs++
+			case "ioerr":
+				finished[l.Seq] = true
+			case "ioend":
+				ioEnd = true
 			case "view":
 				views = append(views, l)
 			case "done":
@@ -950,6 +1004,19 @@ func c17Prop(t vpT, c c17Case, dir string, st *c17Stats) (nontrivial bool, class
 		case run.killed:
 			st.kills++
 			st.killPoints[seg.Kill.At]++
+		case ioEnd && run.exitCode == 0:
+			st.ioFaults++
+			classes = append(classes, "binlog-io-fault")
+			unreturned := 0
+			for seq := range started {
+				if !finished[seq] {
+					unreturned++
+				}
+			}
+			if unreturned > 0 {
+				st.ioFaultsInFlight++
+				classes = append(classes, "binlog-io-fault-with-write-in-flight")
+			}
 		case done && run.exitCode == 0:
 			if seg.Kill.At != "none" && seg.Kill.At != "timer" {
 				classes = append(classes, "kill-point-not-reached")
@@ -1140,6 +1207,9 @@ func c17KillName(c c17Case, i int) string {
 	if i < 0 || i >= len(c.Segs) {
 		return "?"
 	}
+	if c.Segs[i].IOFail > 0 {
+		return fmt.Sprintf("binlog I/O failing from append #%d on, or clean close", c.Segs[i].IOFail)
+	}
 	k := c.Segs[i].Kill
 	switch k.At {
 	case "none", "":
@@ -1241,6 +1311,11 @@ func c17Gen() *rapid.Generator[c17Case] {
 					seg.Kill = c17Kill{At: at, K: rapid.IntRange(1, hi).Draw(t, "kill_k")}
 				}
 			}
+			if s < nseg-1 && !seg.NoWait && rapid.IntRange(0, 6).Draw(t, "io_fail?") == 0 {
+				seg.IOFail = rapid.IntRange(1, totalOps).Draw(t, "io_fail")
+				seg.Kill = c17Kill{At: "none"}
+				seg.CloseAfter = 0
+			}
 			c.Segs = append(c.Segs, seg)
 		}
 		return c
@@ -1303,6 +1378,8 @@ func TestVerifC17Crash(t *testing.T) {
 			total.snapshotsEven += st.snapshotsEven
 			total.rejected += st.rejected
 			total.cancelled += st.cancelled
+			total.ioFaults += st.ioFaults
+			total.ioFaultsInFlight += st.ioFaultsInFlight
 			total.tornByParent += st.tornByParent
 			c17Known(ev, &st, &total)
 			for k, v := range st.killPoints {
@@ -1320,6 +1397,8 @@ func TestVerifC17Crash(t *testing.T) {
 	ev.Class("fault-points:kills-with-unacknowledged-write-in-flight", int64(total.inflightAtKill))
 	ev.Class("fault-points:appends-rejected", int64(total.rejected))
 	ev.Class("fault-points:ctx-cancelled-in-callback-do-failed", int64(total.cancelled))
+	ev.Class("fault-points:binlog-io-faults", int64(total.ioFaults))
+	ev.Class("fault-points:binlog-io-faults-with-write-in-flight", int64(total.ioFaultsInFlight))
 	ev.Class("fault-points:tails-torn-by-parent", int64(total.tornByParent))
 	ev.Class("restarts-refused-on-torn-tail(known)", int64(total.knownTornTail))
 	ev.Class("reader-observations-checked", int64(total.viewsChecked))
